@@ -159,15 +159,10 @@ impl Repl {
         let input_taken = input_taken + "\n" + &line;
 
         if self.depth < 0 {
-            let loc = self.loc.clone();
-            let result = parse_sexp(loc, input_taken.bytes())
-                .map(|_v| {
-                    panic!("too many parens but parsed anyway");
-                })
-                .err_into();
-            self.input_exp = "".to_string();
+            // The count is approximate (it also sees parentheses inside strings
+            // and comments), so let the parser decide whether the input is
+            // well formed: it reports "Too many close parens" when it is not.
             self.depth = 0;
-            return result;
         }
 
         if self.depth > 0 {
@@ -193,8 +188,11 @@ impl Repl {
                     let name = second_of_alist(prog0.clone())?;
                     let built_program = program_with_helper(vec![name], prog0);
                     let program = frontend(self.opts.clone(), &[built_program])?;
-                    self.evaluator
-                        .add_helper(&program.helpers[program.helpers.len() - 1]);
+                    let prog0 = parsed_program[0].clone();
+                    let new_helper = program.helpers.last().ok_or_else(|| {
+                        CompileErr(prog0.loc(), "form did not define a helper".to_string())
+                    })?;
+                    self.evaluator.add_helper(new_helper);
                     Ok(Some(Rc::new(BodyForm::Quoted(SExp::Nil(self.loc.clone())))))
                 } else {
                     frontend(self.opts.clone(), &parsed_program)
